@@ -52,6 +52,12 @@ fn main() {
     if prop == "audit-dump" {
         std::process::exit(c_docs::audit_dump(&args[2]));
     }
+    if prop == "count-decor" {
+        for k in 0..=2 {
+            println!("decor deviations <= {}: {} documents", k, docu::decor_cases(k).len());
+        }
+        std::process::exit(0);
+    }
     if prop == "audit" {
         std::process::exit(c_docs::audit_model());
     }
